@@ -48,6 +48,7 @@ table! {
     c18::h_tokens,
     c04::h_any,
     c04::h_skeletons,
+    c04::h_nesting,
     c05::h_inert,
     c05::h_glob,
     c06::h_pair,
@@ -57,6 +58,7 @@ table! {
     c14::h_list_lines,
     c15::h_all_kinds,
     c15::h_files,
+    c15::h_repeats,
     c07::h_roundtrip,
     c08::h_edits,
     c08::h_completed,
@@ -98,6 +100,7 @@ table! {
     c17::h_metadata,
     c17::h_pkgdb,
     c17::h_summary_calls,
+    c17::h_long,
     c03::h_laws2,
     c03::h_trans,
     c03::h_api_laws,
